@@ -23,6 +23,8 @@ def global_hook(eng, name):
 
 
 def call_abstract(eng, st, f, pos, kw):
+    if f.a not in ("add_cons_vars_to_problem", "remove_cons_vars_from_problem"):
+        return None
     tr = st.ghost.get("trace", ())
     return [("ok", st.setghost("trace", tr + ((f.a, tuple(pos), tuple(sorted(kw.items(), key=lambda x: x[0]))),)), NONE)]
 
